@@ -44,11 +44,16 @@ def build_wire_batch(b: shapes.Builder, n, *, regions, max_headers, whole_second
     recs = []
     for j in range(n):
         p = f"r{j}"
-        nh = list(range(max_headers + 1))[b.alt(p + "#headers", max_headers + 1)]
+        nh_alts = list(range(max_headers + 1)) + ([reclib.MANY_HEADERS] if j == 0 else [])
+        nh = nh_alts[b.alt(p + "#headers", len(nh_alts))]
+        if nh == reclib.MANY_HEADERS:
+            # the header count crosses the one-byte zig-zag varint boundary (63 | 64); the headers themselves are tiny and concrete
+            hdrs = [(b"k", None if i % 2 else b"v") for i in range(nh)]
+        else:
+            hdrs = [(reclib.payload(b, f"{p}.h{i}.key", regions), reclib.payload(b, f"{p}.h{i}.value", regions)) for i in range(nh)]
         recs.append(dict(attributes=b._int(p + ".attributes", -128, 127), timestamp_delta=delta_reps[b.alt(p + ".ts_delta#t", len(delta_reps))],
                          offset_delta=b._int(p + ".offset_delta", -(2**31), 2**31 - 1), key=reclib.payload(b, p + ".key", regions),
-                         value=reclib.payload(b, p + ".value", regions),
-                         headers=[(reclib.payload(b, f"{p}.h{i}.key", regions), reclib.payload(b, f"{p}.h{i}.value", regions)) for i in range(nh)]))
+                         value=reclib.payload(b, p + ".value", regions), headers=hdrs))
     d = dict(base_offset=b._int("base_offset", -(2**62), 2**62), partition_leader_epoch=b._int("partition_leader_epoch", -(2**31), 2**31 - 1),
              attributes=b._int("attributes", -(2**15), 2**15 - 1), last_offset_delta=b._int("last_offset_delta", -(2**31), 2**31 - 1), base_timestamp=base_ts,
              max_timestamp=b._int("max_timestamp", 0, 2**62), producer_id=b._int("producer_id", -(2**63), 2**63 - 1),
@@ -372,7 +377,7 @@ def check(tier):
     cov = runner.mc_coverage(
         total, functions=["kio.records.readers.read_batch/read_record/read_header/read_signed_compact_string_as_bytes_nullable", "kio.records.writers.write_batch/write_prepared_batch (A2)",
                           "kio.serial.readers.read_int*/read_uint32/read_signed_varint/read_signed_varlong"],
-        bounds={"records": opts["ns"], "headers_per_record": "0..%d" % opts["max_headers"], "payload_lengths": [list(r) for r in opts["regions"]],
+        bounds={"records": opts["ns"], "headers_per_record": "0..%d symbolic, and 64 tiny concrete ones on the first record" % opts["max_headers"], "payload_lengths": [list(r) for r in opts["regions"]],
                 "header_fields": "full ranges; timestamps at representatives in the entity harness and over every base in [0, 9999-12-31) x delta in int32 in the integer/real lemma read_record_timestamp; max timestamp >= every record",
                 "variants": "whole-second timestamps (all clauses must hold) and arbitrary millisecond timestamps", "damage": "%d concrete valid batches (4 captured broker batches + 1 reference-encoded) x (one overwritten byte with symbolic position from the CRC field to the end and symbolic value | symbolic magic != 2 | every truncation point)" % len(batches),
                 "crc": "uninterpreted fold + per-byte step injectivity (A6); counterexamples are replayed with the real crc32c"},
